@@ -80,8 +80,9 @@ def main(argv=None):
                 modules = modules + [m]
             except Exception:
                 pass
+    cone = set([a.pid] + list(getattr(props, 'DEPENDS', {}).get(a.pid, [])))
     for un, u in sorted(harness.UNITS.items()):
-        if a.pid in u.props and un not in unit_names:
+        if (cone & set(u.props)) and un not in unit_names:
             unit_names.append(un)
     if a.units:
         unit_names = [u for u in unit_names if u in a.units.split(',')]
@@ -101,7 +102,7 @@ def main(argv=None):
             # vacuity guard: a unit case that generates no obligation at all (contradictory requires, every path aborted) proves nothing
             errors.append((r['unit'], r['case'], 'vacuous: unit case generated zero obligations (paths=%s)' % r['paths']))
         for o in r['obligations']:
-            if a.pid in tags_of(o['id']) or '*' in tags_of(o['id']):
+            if (cone & tags_of(o['id'])) or '*' in tags_of(o['id']):
                 o = dict(o)
                 o['unit'] = r['unit']
                 o['case'] = r['case_desc']
@@ -334,6 +335,7 @@ def write_evidence(a, P, unit_names, results, obligations, ndis, canary_log, kno
             solver_time_s=round(sum(o.get('secs', 0) for o in obligations), 3),
             per_unit=[dict(unit=r['unit'], case=r['case_desc'], paths=r['paths'], obligations=len(r['obligations']),
                            secs=round(r.get('secs', 0), 2), undecided=r['undecided']) for r in results],
+            dependency_cone=sorted(set([a.pid] + list(getattr(__import__('contracts.props', fromlist=['DEPENDS']), 'DEPENDS', {}).get(a.pid, [])))),
             functions_executed_inline=sorted(set(n.split(' ', 1)[1] for r in results for n in (r.get('notes') or [])
                                                  if isinstance(n, str) and (n.startswith('executed-inline ') or n.startswith('auto-inlined ')))),
             canaries=canary_log,
